@@ -17,9 +17,11 @@ CONSTANTS Classes,      \* class names
           Orders,       \* {"sorted", "reversed", "shuffled", "dup"}
           MaxOps        \* bound on the length of generated behaviours
 
-Modes == {"ok", "ok2", "unknown", "missing", "unpublished"}
-(* ok2: a second, non-default but valid parameter set; unpublished: a parameter that a *)
-(* parent class publishes but this class (e.g. a geometry wrapper) does not            *)
+Modes == {"ok", "ok2", "unknown", "unknown2", "missing", "unpublished"}
+(* ok2: a second, non-default but valid parameter set; unknown2: an unknown name next  *)
+(* to that second parameter set (constructors that pre-process their keywords);        *)
+(* unpublished: a parameter that a parent class publishes but this class (e.g. a       *)
+(* geometry wrapper) does not                                                          *)
 IsOk(mode) == mode \in {"ok", "ok2"}
 
 (* Documented standard field names (ExactSolution docstring table) and    *)
